@@ -2639,6 +2639,28 @@ func (c *ChannelArbitrator) resolveContract(currentContract ContractResolver) {
 	log.Tracef("ChannelArbitrator(%v): attempting to resolve %T",
 		c.cfg.ChanPoint, currentContract)
 
+	// A resolver restored from disk may already be resolved: it
+	// checkpointed its final state, but we went down before it was removed
+	// from the set of unresolved contracts. Nothing below would run for
+	// it, so finish that step now, otherwise the channel could never reach
+	// StateFullyResolved.
+	if currentContract.IsResolved() {
+		log.Debugf("ChannelArbitrator(%v): marking restored contract "+
+			"%T fully resolved", c.cfg.ChanPoint, currentContract)
+
+		err := c.log.ResolveContract(currentContract)
+		if err != nil {
+			log.Errorf("unable to resolve contract: %v", err)
+		}
+
+		select {
+		case c.resolutionSignal <- struct{}{}:
+		case <-c.quit:
+		}
+
+		return
+	}
+
 	// Until the contract is fully resolved, we'll continue to iteratively
 	// resolve the contract one step at a time.
 	for !currentContract.IsResolved() {
